@@ -60,6 +60,29 @@ def _leaves(v, out):
     return out
 
 
+class ViewItems(list):
+    """the entries of a basic slice of a numpy array (a[1:3], a[:, j]): numpy hands out a VIEW, so what is stored into it
+    is stored into the array it was cut from.  ``sinks[k]`` = (container ListV, position) of entry k in the base."""
+
+    def __init__(self, sinks):
+        list.__init__(self, [c_.items[i_] for c_, i_ in sinks])
+        self.sinks = list(sinks)
+
+    def __setitem__(self, k, v):
+        if isinstance(k, slice):
+            ks = list(range(*k.indices(len(self))))
+            vs = list(v)
+            if len(ks) != len(vs):
+                raise Unsupported('resizing store into a view of an array')
+            for k_, v_ in zip(ks, vs):
+                self[k_] = v_
+            return
+        list.__setitem__(self, k, v)
+        c_, i_ = self.sinks[k]
+        c_.items[i_] = v
+        sync_reshape(c_)
+
+
 def sync_reshape(arr):
     """numpy's reshape hands out a view: what is stored into the reshaped array (or one of its rows) is stored into
     the array it was made from"""
@@ -298,6 +321,7 @@ def _hazard_property(kind):
     return property(getter, setter)
 
 
+CUR_NODE = [None]       # the statement being interpreted
 CUR_REL = [None]        # file of the statement being interpreted (for hazards recorded below the frame level)
 
 
@@ -398,15 +422,26 @@ COVER = None         # development aid (tools/coverage.py): set of (module name,
 ARGCOVER = None      # development aid: (module name, function line) -> {parameter: set of values it was bound to}
 
 
+def unknown_decorators(fn):
+    """the decorators of a def that are not among those whose effect on calls is modelled directly"""
+    out = []
+    for d_ in getattr(fn, 'decorator_list', None) or ():
+        dn = ast.unparse(d_.func if isinstance(d_, ast.Call) else d_)
+        if not (dn.split('.')[-1] in KNOWN_DECORATORS or
+                (dn.split('.')[-1] in ('setter', 'getter', 'deleter') and '.' in dn)):
+            out.append(dn)
+    return out
+
+
 def own_nodes(fn):
     """the nodes of a function's own body, without the bodies of functions, lambdas and classes nested in it"""
     stack = list(fn.body) if isinstance(fn.body, list) else [fn.body]
     while stack:
         nd = stack.pop()
+        if isinstance(nd, (ast.FunctionDef, ast.AsyncFunctionDef, ast.Lambda, ast.ClassDef)):
+            continue                    # a nested def / class: its body is not this function's
         yield nd
         for ch in ast.iter_child_nodes(nd):
-            if isinstance(ch, (ast.FunctionDef, ast.AsyncFunctionDef, ast.Lambda, ast.ClassDef)):
-                continue
             stack.append(ch)
 
 
@@ -463,6 +498,7 @@ class Interp:
         self.depth = 0
         self.stack = []               # ids of the FunctionDefs being inlined (recursion guard)
         self.warnings = []
+        self.decorated = {}        # id(def) -> what its (user-defined) decorators made of it
         self.lazy_atoms = set()    # atoms created for attributes an open object was never given
         self.np_syms = {}          # atom name -> 'int64' | 'float32' | 'float64': symbols the rule declares numpy scalars
         self.suppressed_warnings = []       # warnings.warn calls that a filter in force turned into nothing
@@ -701,7 +737,7 @@ class Interp:
         return out
 
     def call_function(self, module, fn, args, kwargs, self_obj=None, owner=None, name=None, closure=None,
-                      preset=None, frame_self=None):
+                      preset=None, frame_self=None, raw=False):
         """inline a FunctionDef with evaluated args. Returns value or Raised."""
         try:
             env = self._bind(module, fn, args, kwargs, self_obj, owner, name, preset)
@@ -712,12 +748,34 @@ class Interp:
                 raise
             return r.raised
         memo_key = None
-        for d_ in getattr(fn, 'decorator_list', None) or ():
-            # a decorator replaces the function by whatever it returns: only the ones with a model may be passed over
-            dn = ast.unparse(d_.func if isinstance(d_, ast.Call) else d_)
-            if not (dn.split('.')[-1] in KNOWN_DECORATORS or
-                    (dn.split('.')[-1] in ('setter', 'getter', 'deleter') and '.' in dn)):
-                raise Unsupported('decorator @%s on %s' % (dn, fn.name), fn, module.relpath)
+        if unknown_decorators(fn) and not raw:
+            # a decorator replaces the function by whatever it returns: the package's own decorators are applied (once
+            # per interpreter, as at import) and the result is what gets called
+            dec = self.decorated.get(id(fn))
+            if dec is None:
+                if len(unknown_decorators(fn)) != len(fn.decorator_list):
+                    raise Unsupported('user-defined decorator combined with @property/@classmethod/... on %s'
+                                      % fn.name, fn, module.relpath)
+                dec = FuncRef(module, fn, None, owner)
+                dec.raw = True
+                df = Frame(self, module, {}, owner, None)
+                for d_ in reversed(fn.decorator_list):
+                    dec = df.apply(df.ev(d_), [dec], {}, d_)
+                self.decorated[id(fn)] = dec
+            df = Frame(self, module, {}, owner, None)
+            try:
+                self.depth += 1
+                return df.apply(dec, ([self_obj] if self_obj is not None else []) + list(args), dict(kwargs), fn)
+            except _RaisedExc as r:
+                if self.depth > 1:
+                    raise
+                return r.raised
+            finally:
+                self.depth -= 1
+        if raw and owner is not None and self_obj is None and args and fn.args.args and \
+                fn.args.args[0].arg in ('self', 'cls'):
+            # the undecorated method called by its wrapper: the first argument is the object
+            self_obj, args = args[0], list(args[1:])
         if getattr(fn, 'decorator_list', None) and any(
                 ast.unparse(d_.func if isinstance(d_, ast.Call) else d_).split('.')[-1] in ('lru_cache', 'cache')
                 for d_ in fn.decorator_list):
@@ -757,6 +815,16 @@ class Interp:
             if is_gen:
                 fr.yields = []
             def gen_result():
+                # the generator was run to its end here, whereas Python runs it step by step between the consumer's
+                # rounds: that is the same unless a mutable object handed out in one round is changed in a later one
+                seen_ = {}
+                for k_, y_ in enumerate(fr.yields):
+                    parts_ = [y_] + (list(y_.items) if isinstance(y_, ListV) else [])
+                    for p_ in parts_:
+                        if isinstance(p_, (DictV, Obj)) or (isinstance(p_, ListV) and p_ is not y_):
+                            if seen_.setdefault(id(p_), k_) != k_:
+                                raise Unsupported('generator %s yields the same mutable object in several rounds '
+                                                  '(lazy evaluation is not modelled)' % fn.name, fn, module.relpath)
                 g_ = ListV(fr.yields)
                 g_.is_generator = True      # a generator object: consumed as it is iterated
                 return g_
@@ -946,6 +1014,7 @@ class Interp:
                 o.attrs[nm] = vals[nm]
             if any(b_.split('.')[-1] == 'NamedTuple' for k in ci.mro for b_ in k.base_exprs):
                 o.attrs['__fields__'] = ListV([f_[0] for f_ in fields])
+                _nt_api(o, [f_[0] for f_ in fields], lambda vals2: self.construct(ci, [], vals2))
             post = self.repo.find_method(ci, '__post_init__', missing_ok=True)
             if post:
                 self.call_function(post[0].module, post[1], [], {}, self_obj=o, owner=post[0])
@@ -1007,6 +1076,12 @@ class Interp:
                     r_.items.append(x)
             r_.is_set = True
             return r_
+        if op == '**' and isinstance(a, ListV) and getattr(a, 'is_array', False) and isinstance(b, Rat) and \
+                b.is_const() and b.const_value() < 0 and b.const_value().denominator == 1:
+            if getattr(a, 'dtype', None) == 'int':
+                raise _RaisedExc(Raised('ValueError'))      # integers to negative integer powers are not allowed
+            if getattr(a, 'dtype', None) == 'caller':
+                self.dtype_hazards.append((CUR_NODE[0], CUR_REL[0]))
         if isinstance(a, ListV) or isinstance(b, ListV):
             if isinstance(a, ListV) and isinstance(b, ListV):
                 if op == '+' and not getattr(a, 'is_array', False) and not getattr(b, 'is_array', False):
@@ -1056,6 +1131,18 @@ class Interp:
             out = CounterV(dict(a.d))
             for k, v in b.d.items():
                 out.d[k] = self.binop('+', out.d[k], v) if k in out.d else v
+            # Counter addition keeps positive totals only: a total that is zero or a negative number goes; a symbolic
+            # total stands for a positive count unless the ordering oracle says otherwise
+            for k in list(out.d):
+                v = out.d[k]
+                if isinstance(v, Rat) and (v.iszero() or (v.is_const() and v.const_value() <= 0)):
+                    del out.d[k]
+                elif isinstance(v, Rat) and not v.is_const() and self.order is not None:
+                    r_ = self.order(v, '<=', C(0))
+                    if r_ is True:
+                        del out.d[k]
+            out.keyobj.update(a.keyobj)
+            out.keyobj.update(b.keyobj)
             return out
         if op == '+' and (isinstance(a, (str, SegStr)) and isinstance(b, (str, SegStr))):
             if isinstance(a, str) and isinstance(b, str) and a not in self.sym_strings \
@@ -1237,6 +1324,11 @@ class Interp:
             # two Python lists / tuples: entry by entry (identical entries are equal)
             res = self.struct_eq(a, b)
             return res if op == '==' else not res
+        if op in ('==', '!=') and (isinstance(a, bool) != isinstance(b, bool)) and (
+                isinstance(a, (Rat, int, Fr)) or isinstance(b, (Rat, int, Fr))):
+            # True == 1, False == 0 (bool is a number)
+            a = C(1 if a else 0) if isinstance(a, bool) else a
+            b = C(1 if b else 0) if isinstance(b, bool) else b
         if op in ('==', '!='):
             if isinstance(a, (str, bool)) or isinstance(b, (str, bool)) or a is None or b is None:
                 if isinstance(a, (Rat, ListV, Elem, Obj)) or isinstance(b, (Rat, ListV, Elem, Obj)):
@@ -1266,6 +1358,9 @@ class Interp:
                 return res if op == 'in' else not res
             if isinstance(a, Obj):
                 res = any(x is a for x in items)       # identity (object equality is not modelled)
+                return res if op == 'in' else not res
+            if isinstance(a, bool) and isinstance(b, DictV):
+                res = any((x is a) or (isinstance(x, Rat) and x.eq(C(1 if a else 0))) for x in items)
                 return res if op == 'in' else not res
             if isinstance(a, ListV) and isinstance(b, DictV) and not getattr(a, 'is_array', False):
                 res = b.nkey(a) in b.d                  # a tuple as key: equal entry by entry <=> same normal form
@@ -1392,6 +1487,7 @@ class Frame:
     def exec_stmt(self, st):
         I = self.I
         CUR_REL[0] = self.module.relpath
+        CUR_NODE[0] = st
         if COVER is not None:
             COVER.add((self.module.name, st.lineno))
         if isinstance(st, ast.Expr):
@@ -1548,7 +1644,8 @@ class Frame:
         if hasattr(ast, 'Match') and isinstance(st, ast.Match):
             self.exec_match(st)
             return
-        if isinstance(st, ast.ImportFrom) and st.module and not st.level:
+        if isinstance(st, ast.ImportFrom) and st.module and not st.level and (
+                st.module in I.repo.modules or any((st.module + '.' + a_.name) in I.repo.modules for a_ in st.names)):
             for a in st.names:
                 base = I.repo.modules.get(st.module)
                 full = st.module + '.' + a.name
@@ -2015,6 +2112,11 @@ class Frame:
                 return MaskV(la.terms + rb.terms)
             if isinstance(la, bool) and isinstance(rb, bool):
                 return la and rb
+            if isinstance(la, ListV) and isinstance(rb, ListV) and len(la) == len(rb) and la.items and \
+                    all(isinstance(x, bool) for x in la.items + rb.items) and not getattr(la, 'is_set', False):
+                r_ = ListV([x and y for x, y in zip(la.items, rb.items)])       # element by element
+                r_.is_array = True
+                return r_
             return I.binop('&', la, rb)
         if isinstance(n, ast.BinOp):
             if type(n.op) not in _OPS:
@@ -2059,6 +2161,10 @@ class Frame:
                 return v
             if isinstance(n.op, ast.Not):
                 return not I.truth(v, n)
+            if isinstance(n.op, ast.Invert) and 'numpy.logical_not' in I.native and (
+                    (isinstance(v, ListV) and v.items and all(isinstance(x, bool) for x in v.items)) or
+                    (isinstance(v, Elem) and isinstance(v.r, bool))):
+                return I.native['numpy.logical_not'](I, self, [v], {}, n)      # ~mask of a boolean array
             raise Unsupported('unary operator', n, self.module.relpath)
         if isinstance(n, ast.BoolOp):
             if isinstance(n.op, ast.And):
@@ -2374,6 +2480,11 @@ class Frame:
                     raise Unsupported('symbolic slice', n, self.module.relpath)
                 r = ListV(base.items[ci(lo):ci(hi):ci(stp)])
                 r.is_array = getattr(base, 'is_array', False)
+                if r.is_array and not any(isinstance(x, ListV) for x in r.items):
+                    # a basic slice of an array is a view of it (a slice of a list is a copy)
+                    pos = list(range(*slice(ci(lo), ci(hi), ci(stp)).indices(len(base.items))))
+                    r.items = ViewItems([(base, k_) for k_ in pos])
+                    r.dtype = getattr(base, 'dtype', None)
                 return r
             raise Unsupported('slice of %r' % (base,), n, self.module.relpath)
         idx = self.ev(n.slice)
@@ -2423,6 +2534,18 @@ class Frame:
                         raise Unsupported('partial slice inside a multi-dimensional index', n, self.module.relpath)
                     r_ = ListV([nd(x, ixs[1:]) for x in cur.items])
                     r_.is_array = True
+                    rest_ = ixs[1:]
+                    if rest_ and all(isinstance(q_, Rat) for q_ in rest_) and \
+                            not any(isinstance(x, ListV) for x in r_.items):
+                        # a[:, j]: a column - a view of the array
+                        sinks_ = []
+                        for x in cur.items:
+                            c_ = x
+                            for q_ in rest_[:-1]:
+                                c_ = c_.items[self.index(q_, len(c_), n)]
+                            sinks_.append((c_, self.index(rest_[-1], len(c_), n)))
+                        r_.items = ViewItems(sinks_)
+                        r_.dtype = getattr(cur, 'dtype', None)
                     return r_
                 return nd(cur.items[self.index(ix, len(cur), n)], ixs[1:])
             return nd(base, list(idx.items))
@@ -2513,7 +2636,26 @@ class Frame:
             raise _RaisedExc(Raised('AttributeError', n))
         if isinstance(base, Obj):
             return self.obj_attr(base, n.attr, n)
+        if isinstance(base, TypeOf) and n.attr in ('__name__', '__qualname__'):
+            v_ = base.v
+            if isinstance(v_, Obj) and v_.ci is not None:
+                return v_.ci.name
+            if isinstance(v_, bool):
+                return 'bool'
+            if isinstance(v_, (str, SegStr)):
+                return 'str'
+            if isinstance(v_, DictV):
+                return 'dict'
+            if v_ is None:
+                return 'NoneType'
+            raise Unsupported('name of the type of %r' % (v_,), n, self.module.relpath)
+        if isinstance(base, ClassInfo) and n.attr in ('__name__', '__qualname__'):
+            return base.name
         if isinstance(base, ListV) and n.attr == 'T':
+            if not any(isinstance(x, ListV) for x in base.items):
+                return base                 # the transpose of a 1-D array is the array itself
+            if not all(isinstance(x, ListV) for x in base.items):
+                raise Unsupported('transpose of a ragged array', n, self.module.relpath)
             return _transpose(base)
         if isinstance(base, (str, SegStr)) and n.attr not in dir(str):
             raise _RaisedExc(Raised('AttributeError', n))
@@ -2616,7 +2758,7 @@ class Frame:
     def int_store(self, buf, values, target):
         """a store of values into (a slice of) an array whose element type is an integer type or is taken from the
         caller's container: anything that is not an integer constant is truncated"""
-        if getattr(buf, 'dtype', None) in ('caller', 'int'):
+        if getattr(buf, 'dtype', None) in ('caller', 'int', 'narrow'):
             vals = values if isinstance(values, list) else [values]
             if not all(isinstance(x, ArgV) or (isinstance(x, Rat) and (
                     x.iszero() or (x.is_const() and x.const_value().denominator == 1) or
@@ -2796,7 +2938,7 @@ class Frame:
             is_static = any(ast.unparse(d) in ('staticmethod',) for d in fv.fn.decorator_list)
             return I.call_function(fv.module, fv.fn, args, kwargs,
                                    self_obj=None if is_static else fv.self_obj,
-                                   owner=fv.owner, name=qual)
+                                   owner=fv.owner, name=qual, raw=getattr(fv, 'raw', False))
         if isinstance(fv, ClassInfo) and fv.qual in I.opaque_classes:
             return I.opaque_classes[fv.qual](I, self, args, kwargs)
         if isinstance(fv, ClassInfo):
@@ -3265,6 +3407,16 @@ def builtin_call(I, fr, name, args, kwargs, n):
                         raise Unsupported('isinstance(%s) of a number whose Python type is not tracked' % tn, n)
                     else:
                         res = res or tn == 'float'      # symbolic quantities stand for Python floats (assumption)
+            elif tn in ('numpy.integer', 'numpy.floating', 'numpy.number', 'numpy.generic'):
+                if isinstance(v, Rat) and v.atoms() and all(a_ in I.np_syms for a_ in v.atoms()) and \
+                        len({I.np_syms[a_] for a_ in v.atoms()}) == 1:
+                    kind_ = I.np_syms[next(iter(v.atoms()))]
+                    res = res or tn in ('numpy.number', 'numpy.generic') or \
+                        (tn == 'numpy.integer') == kind_.startswith('int')
+                elif isinstance(v, Rat) and not (v.is_const() or v.iszero()):
+                    pass            # symbolic quantities stand for Python floats (assumption, as above)
+                elif isinstance(v, Rat):
+                    raise Unsupported('isinstance(%s) of a number whose Python type is not tracked' % tn, n)
             elif tn in ('Number', 'Real', 'Complex'):
                 res = res or isinstance(v, (Rat, bool)) or (isinstance(v, Obj) and 'Number' in v.isa)
             elif tn == 'bool':
@@ -3290,6 +3442,12 @@ def builtin_call(I, fr, name, args, kwargs, n):
         if all(isinstance(x, Rat) and x.eq(C(k_)) for k_, x in enumerate(seq)):
             return pos
         raise Unsupported('%s(..., key=...) whose keys cannot be ordered' % name, n)
+    if name in ('min', 'max') and set(kwargs) == {'default'} and len(args) == 1:
+        # min(iterable, default=d): d for an empty iterable, else as without it
+        seq = ListV(list(fr.iter_items(args[0], n)))
+        if not seq.items:
+            return kwargs['default']
+        return builtin_call(I, fr, name, [seq], {}, n)
     if name in ('min', 'max'):
         # the builtin and numpy's reduction agree on numbers: one model (incl. the uninterpreted extremum)
         if kwargs:
@@ -3986,7 +4144,7 @@ def _np_like(val):
             if isinstance(dt, Builtin):
                 dt = dt.name
             if dt is not None:
-                r.dtype = 'float' if dt in FLOAT_DTYPES else 'other:%s' % (dt,)
+                r.dtype = _dtype_tag(dt)
             else:
                 r.dtype = getattr(v, 'dtype', 'caller')
             return r
@@ -3999,16 +4157,31 @@ def _np_like(val):
 INT_DTYPES = ('int', 'np.int64', 'np.int32', 'np.int_', 'int64', 'int32', 'i8', 'i4', 'np.intp', 'bool', 'np.bool_')
 
 
+NARROW_DTYPES = ('float32', 'np.float32', 'f4', 'single', 'np.single', 'float16', 'np.float16', 'f2', 'half', 'np.half')
+
+
 def _dtype_tag(dt):
+    """'float' (64 bit: exact for this analysis) | 'int' | 'narrow' (a float type that rounds what is stored) |
+    'caller' (the element type of a container the caller supplied) | None (not asked for)"""
     if isinstance(dt, Builtin):
         dt = dt.name
+    if isinstance(dt, BoundNative) and dt.name == 'dtype' and isinstance(dt.base, ListV):
+        return getattr(dt.base, 'dtype', None) or 'caller'      # arr.dtype: the element type of that array
+    if isinstance(dt, ExtRef):
+        dt = '.'.join(dt.alias[1:])
+        dt = {'numpy.float32': 'float32', 'numpy.float16': 'float16', 'numpy.single': 'single',
+              'numpy.half': 'half'}.get(dt, dt)
     if dt is None:
         return None
+    if dt in ('float', 'int', 'narrow', 'caller'):
+        return dt                       # already a tag
     if dt in FLOAT_DTYPES:
         return 'float'
     if dt in INT_DTYPES:
         return 'int'
-    return 'other:%s' % (dt,)
+    if dt in NARROW_DTYPES:
+        return 'narrow'
+    raise Unsupported('element type %r of an array' % (dt,))
 
 
 def _tag_dtype(v, tag):
@@ -4238,6 +4411,9 @@ def _signature_of(I, fn, n=None):
             return [], ['self'], ['self']
         a, bound = got[1].args, True
     elif isinstance(fn, FuncRef):
+        if unknown_decorators(fn.fn) and not getattr(fn, 'raw', False):
+            # what inspect / __code__ see is the object the decorator returned, not this def
+            raise Unsupported('signature of %s, which carries a user-defined decorator' % fn.fn.name, n)
         a = fn.fn.args
         bound = fn.self_obj is not None and fn.closure is None
     elif isinstance(fn, BoundOpaque):
@@ -4508,6 +4684,22 @@ def nd_transpose(v, axes):
     return build([])
 
 
+def _nt_api(r, names, remake):
+    """what every named tuple has besides its fields: _replace, _asdict, _fields (``remake``: {field: value} -> a
+    new instance of the same type)"""
+    def repl(I2, o2, a2, k2):
+        if a2:
+            raise _RaisedExc(Raised('TypeError'))
+        if any(kk not in names for kk in k2):
+            raise _RaisedExc(Raised('ValueError'))
+        return remake(dict({nm: o2.attrs[nm] for nm in names}, **k2))
+    r.opaque_methods['_replace'] = repl
+    r.opaque_methods['_asdict'] = lambda I2, o2, a2, k2: DictV({nm: o2.attrs[nm] for nm in names})
+    fl = ListV(list(names))
+    fl.frozen = True
+    r.attrs['_fields'] = fl
+
+
 def _namedtuple(I, fr, args, kwargs, n):
     tname, fields = args[0], args[1]
     if isinstance(fields, str):
@@ -4530,17 +4722,12 @@ def _namedtuple(I, fr, args, kwargs, n):
         if set(r.attrs) != set(names):
             raise _RaisedExc(Raised('TypeError', n))
         r.attrs['__fields__'] = ListV(list(names))
-
-        def repl(I2, o2, a2, k2):
-            vals2 = {nm: o2.attrs[nm] for nm in names}
-            for kk in k2:
-                if kk not in vals2:
-                    raise _RaisedExc(Raised('ValueError', n))
-            vals2.update(k2)
-            return make(I2, o, [], vals2)
-        r.opaque_methods['_replace'] = repl
+        _nt_api(r, names, lambda vals2: make(I_, o, [], vals2))
         return r
     maker.opaque_methods['__call__'] = make
+    fl_ = ListV(list(names))
+    fl_.frozen = True
+    maker.attrs['_fields'] = fl_
     return maker
 
 
@@ -5052,15 +5239,57 @@ def _force_pass(I, fr, args, kwargs, n):
     return fr.apply(fn, [], sel, n)
 
 
-def _copy(I, fr, args, kwargs, n):
-    v = args[0]
+def _copy_value(I, v, deep, memo, n):
+    """copy.copy / copy.deepcopy of an abstract value: containers and objects are NEW objects (a change of the copy does
+    not reach the original); numbers, texts, None, functions and classes are immutable and stay"""
+    import copy as _cp
+    if id(v) in memo:
+        return memo[id(v)]
+
+    def sub(x):
+        return _copy_value(I, x, True, memo, n) if deep else x
     if isinstance(v, DictV):
-        return DictV(dict(v.d))
+        r = _cp.copy(v)
+        memo[id(v)] = r
+        r.d = {k_: sub(x_) for k_, x_ in v.d.items()}
+        r.keyobj = dict(v.keyobj)
+        return r
     if isinstance(v, ListV):
-        r = ListV(list(v.items))
-        r.is_array = getattr(v, 'is_array', False)
+        r = _cp.copy(v)
+        memo[id(v)] = r
+        r.items = [sub(x_) for x_ in v.items]
+        for a_ in ('reshape_of', 'reshape_root', 'view_of'):
+            if hasattr(r, a_):
+                delattr(r, a_)
+        return r
+    if isinstance(v, Elem) and type(v) is Elem:
+        r = Elem(v.r)
+        memo[id(v)] = r
+        return r
+    if isinstance(v, Obj):
+        if v.ci is not None and (I.repo.find_method(v.ci, '__copy__', missing_ok=True) or
+                                 I.repo.find_method(v.ci, '__deepcopy__', missing_ok=True)):
+            raise Unsupported('copy of an object whose class defines __copy__ / __deepcopy__', n)
+        r = _cp.copy(v)
+        memo[id(v)] = r
+        r.attrs = {k_: sub(x_) for k_, x_ in v.attrs.items()}
+        r.missing = set(v.missing)
+        r.isa = set(v.isa)
+        r.writes = list(v.writes)
+        r.opaque_methods = dict(v.opaque_methods)
+        r.opaque_params = dict(v.opaque_params)
+        r.vec_attrs = set(v.vec_attrs)
         return r
     return v
+
+
+def _copy(I, fr, args, kwargs, n):
+    return _copy_value(I, args[0], False, {}, n)
+
+
+def _deepcopy(I, fr, args, kwargs, n):
+    kwargs.get('memo')
+    return _copy_value(I, args[0], True, {}, n)
 
 
 def _np_atleast_1d(I, fr, args, kwargs, n):
@@ -5336,7 +5565,7 @@ NATIVE = {
     'pmutt.constants.T0': _c_T0,
     'inspect.signature': _inspect_signature,
     'copy.copy': _copy,
-    'copy.deepcopy': _copy,
+    'copy.deepcopy': _deepcopy,
     'numpy.atleast_1d': _np_atleast_1d,
     'numpy.full_like': _np_full_like,
     'numpy.full': _np_full,
@@ -5370,8 +5599,11 @@ GLOBAL_ATTRS = {
     'numpy.pi': lambda I: I.D.sym('pi'),
     'numpy.inf': lambda I: I.D.sym('INF'),
     'numpy.double': lambda I: 'np.double',
-    'numpy.integer': lambda I: Builtin('int'), 'numpy.floating': lambda I: Builtin('float'),
-    'numpy.number': lambda I: Builtin('Number'), 'numpy.generic': lambda I: Builtin('Number'),
+    # abstract numpy scalar types: not the builtins (np.int64 is an np.integer and no int, a Python float no np.floating)
+    'numpy.integer': lambda I: Builtin('numpy.integer'), 'numpy.floating': lambda I: Builtin('numpy.floating'),
+    'numpy.number': lambda I: Builtin('numpy.number'), 'numpy.generic': lambda I: Builtin('numpy.generic'),
+    'numpy.float32': lambda I: 'np.float32', 'numpy.float16': lambda I: 'np.float16',
+    'numpy.single': lambda I: 'np.single', 'numpy.half': lambda I: 'np.half',
     'numpy.ndarray': lambda I: Builtin('ndarray'),
     'numpy.float64': lambda I: 'np.float64',
     'numpy.float_': lambda I: 'np.float_',
